@@ -343,14 +343,16 @@ def real_binary_watch(scratch):
         return None, {"error": "build of the real binary failed", "output": p.stdout[-800:]}
     d = os.path.join(scratch, "watch")
     subprocess.run(["rm", "-rf", d])
-    for sub in ("da", "db"):
+    for sub in ("da", "db", "dc"):
         os.makedirs(os.path.join(d, sub))
         open(os.path.join(d, sub, "seed.txt"), "w").write("x")
     cfg = os.path.join(d, "tasks.yaml")
     open(cfg, "w").write(
         "tasks:\n  ta:\n    command: echo \"ta $EventName $EventPath\" >> %s/log-a\n  tb:\n    command: echo \"tb $EventName $EventPath\" >> %s/log-b\n"
-        "watchers:\n  wa:\n    watch: [\"%s/da/*.txt\"]\n    events: [write]\n    task: ta\n  wb:\n    watch: [\"%s/db/*.txt\"]\n    events: [write]\n    task: tb\n" % (d, d, d, d))
-    q = subprocess.Popen([binp, "-c", cfg, "watch", "wa", "wb"], cwd=d, stdout=subprocess.DEVNULL, stderr=subprocess.DEVNULL, stdin=subprocess.DEVNULL, start_new_session=True)
+        "  tc:\n    command: echo \"tc $EventName $EventPath\" >> %s/log-c\n"
+        "watchers:\n  wa:\n    watch: [\"%s/da/*.txt\"]\n    events: [write]\n    task: ta\n  wb:\n    watch: [\"%s/db/*.txt\"]\n    events: [write]\n    task: tb\n"
+        "  wc:\n    watch: [\"%s/dc/*.txt\"]\n    task: tc\n" % (d, d, d, d, d, d))
+    q = subprocess.Popen([binp, "-c", cfg, "watch", "wa", "wb", "wc"], cwd=d, stdout=subprocess.DEVNULL, stderr=subprocess.DEVNULL, stdin=subprocess.DEVNULL, start_new_session=True)
     time.sleep(2.5)   # registration + the start-up runs
     def log(n):
         try:
@@ -362,17 +364,20 @@ def real_binary_watch(scratch):
     for sub in ("da", "db"):
         with open(os.path.join(d, sub, "seed.txt"), "a") as f:
             f.write("more\n")
+    os.chmod(os.path.join(d, "dc", "seed.txt"), 0o600)   # wc lists no events: all types, chmod included
     t0 = time.time()
     want_a, want_b = "write " + os.path.join(d, "da", "seed.txt"), "write " + os.path.join(d, "db", "seed.txt")
-    while time.time() - t0 < 12 and not (want_a in log("a") and want_b in log("b")):
+    want_c = "chmod " + os.path.join(d, "dc", "seed.txt")
+    while time.time() - t0 < 12 and not (want_a in log("a") and want_b in log("b") and want_c in log("c")):
         time.sleep(0.2)
-    case = {"watchers": ["wa", "wb"], "wa_served_its_write": want_a in log("a"), "wb_served_its_write": want_b in log("b"), "waited_s": round(time.time() - t0, 1)}
+    case = {"watchers": ["wa", "wb", "wc (no events list)"], "wa_served_its_write": want_a in log("a"), "wb_served_its_write": want_b in log("b"),
+            "wc_served_a_chmod": want_c in log("c"), "waited_s": round(time.time() - t0, 1)}
     try:
         q.send_signal(_sig.SIGINT)
         q.wait(timeout=10)
     except Exception:
         q.kill()
-    ok = case["wa_served_its_write"] and case["wb_served_its_write"]
+    ok = case["wa_served_its_write"] and case["wb_served_its_write"] and case["wc_served_a_chmod"]
     return ok, {"cases": [case]}
 
 
@@ -820,7 +825,7 @@ def main():
             if wok is None:
                 harness_errors.append({"type": "watch-probe-trouble", "detail": watch_probe})
             elif not wok:
-                v = {"prop": prop, "rule": "real-binary-watch", "msg": "real binary: `taskctl watch wa wb`, one write in each watched directory: %s (each watcher must run its task for its own file)" % json.dumps(watch_probe["cases"]), "seq": 0}
+                v = {"prop": prop, "rule": "real-binary-watch", "msg": "real binary: `taskctl watch wa wb wc`, one write in the directories of wa and wb, a chmod in that of wc (which lists no events): %s (each watcher must run its task for its own file)" % json.dumps(watch_probe["cases"]), "seq": 0}
                 k = known_match(prop, v, known)
                 if k:
                     known_hits[k["id"]] = (k, known_hits.get(k["id"], (k, 0))[1] + 1)
